@@ -162,3 +162,62 @@ def check_c04_c13(prop, tier, seed):
 
 PLANS["C04"] = check_c04_c13
 PLANS["C13"] = check_c04_c13
+
+
+def check_c05(prop, tier, seed):
+    """Crash enumeration: a crash probe (snapshot of the lower metadata, Init::Recover over the copy,
+    observation + free of every completed block) before every write to the persistent metadata."""
+    res = Result(prop, tier, seed, "fault_enumeration")
+    geos = ["th4", "th1", "th2"] if tier == "quick" else ["th4", "th1", "th2", "th8", "16k"]
+    vlib.build_all(geos)
+    jobs = []
+    nseq = 4 if tier == "quick" else 40
+    for g in geos:
+        for i in range(nseq):
+            jobs.append((g, ["crashseq", "seed=%d" % (seed * 100 + i), "runs=%d" % (25 if tier == "quick" else 60)]))
+    names = [s["name"] for s in json.load(open(SCN)) if s["name"].startswith("L")]
+    for g in geos:
+        for nm in names:
+            a = ["conc", "scn=" + SCN, "name=" + nm, "crash=1", "seed=%d" % seed]
+            a += ["bound=1", "limit=150", "every=2"] if tier == "quick" else ["bound=2", "limit=3000", "every=1", "pct=300"]
+            jobs.append((g, a))
+    outs = gen_and_validate(res, jobs, [prop], par=vlib.NCPU)
+    # recovery at quiescent points of random histories (Reinit action)
+    gen_and_validate(res, seq_jobs(tier, seed, 0.4), [prop])
+    res.cov["rule"] = ("crash points = every atomic write to the lower (persistent) metadata buffer plus the end of the "
+                       "execution, of (a) seeded random single-thread programs over frame counts covering whole trees, "
+                       "partial last trees and partial huge frames, (b) the concurrent lower-allocator scenarios L1-L8 "
+                       "under enumerated schedules, (c) Init::Recover at quiescent points of random histories; at each "
+                       "point the buffer is copied, a fresh allocator recovers from the copy, and TLC (TraceAbs!Crash) "
+                       "checks: completed allocations still allocated and freeable with their order, free frames not "
+                       "touched by an in-flight call still free, fast = exact counts, validate() passes; "
+                       "distinct = distinct events (crash events differ by write index / recovered state)")
+    res.cov["crash_points"] = res.cov["evaluations"]
+    return res
+
+
+def check_c21(prop, tier, seed):
+    """Solo runs: at every scheduling point of base schedules, freeze the other threads and run each
+    in-flight call alone; it must return (not panic) within SoloBound steps (TraceAbs!Solo)."""
+    res = Result(prop, tier, seed, "model_checking")
+    geos = ["th4", "th1", "th2"] if tier == "quick" else ["th4", "th1", "th2", "th8", "16k"]
+    vlib.build_all(geos)
+    names = [s["name"] for s in json.load(open(SCN))]
+    jobs = []
+    for g in geos:
+        for nm in names:
+            a = ["conc", "scn=" + SCN, "name=" + nm, "solo=1", "seed=%d" % seed]
+            a += ["bound=1", "limit=200", "bases=200", "nbases=8"] if tier == "quick" else \
+                 ["bound=2", "limit=4000", "bases=4000", "nbases=150"]
+            jobs.append((g, a))
+    gen_and_validate(res, jobs, [prop], par=vlib.NCPU)
+    res.cov["rule"] = ("for base schedules (non-preemptive ones and a sample of the DFS schedules) of every scenario: at "
+                       "every scheduling point p and for every thread t with a call in flight, the execution is re-run "
+                       "with prefix p and then only t scheduled until its call returns; the number of t's steps and the "
+                       "way the call ended are logged as a solo event and checked by TLC against TraceAbs!SoloBound; "
+                       "distinct = distinct (scenario, point, thread, steps) tuples")
+    return res
+
+
+PLANS["C05"] = check_c05
+PLANS["C21"] = check_c21
